@@ -4,20 +4,27 @@ design-round text (scripts/design_parts.json) + scripts/design_tail.md + the see
 import json,glob,os
 parts=json.load(open('/verif/scripts/design_parts.json'))
 descs=json.load(open('/verif/scripts/seed_descriptions.json'))
+frozen=json.load(open('/verif/seeded/round2_frozen.json')) if os.path.exists('/verif/seeded/round2_frozen.json') else {}
 def table(pattern):
-    t="| seed | change (needs a specific interleaving / fault / history / input to manifest) | caught by (properties) | rules that fire |\n|---|---|---|---|\n"
+    r2='[cd]' in pattern
+    t="| seed | change (needs a specific interleaving / fault / history / input to manifest) | "+("frozen checker (before round 2 was read) | " if r2 else "")+"caught by (properties) | rules that fire |\n|---|---|---|---|"+("---|" if r2 else "")+"\n"
     n=d=0
     for f in sorted(glob.glob(pattern)):
         m=json.load(open(f))
         if not m.get('confirmed'): continue
         n+=1; d+=bool(m.get('detected_by_own_property'))
         props=m['checks_that_fire']['properties']; rules=sorted(m['checks_that_fire']['rules'].keys())
-        t+="| %s | %s | %s | %s |\n"%(m['seed'],descs.get(m['seed'],''),', '.join(props) or '**missed**',', '.join(rules) or '—')
+        if r2:
+            f=frozen.get(m['seed'],{})
+            t+="| %s | %s | %s | %s | %s |\n"%(m['seed'],descs.get(m['seed'],''),(', '.join(f.get('properties',[])) or 'missed')+(' (own)' if f.get('own') else ''),', '.join(props) or '**missed**',', '.join(rules) or '—')
+        else:
+            t+="| %s | %s | %s | %s |\n"%(m['seed'],descs.get(m['seed'],''),', '.join(props) or '**missed**',', '.join(rules) or '—')
     return t,n,d
 t1,n1,d1=table('/verif/seeded/*/[ab]/meta.json')
 t2,n2,d2=table('/verif/seeded/*/[cd]/meta.json')
 head=open('/verif/scripts/design_head.md').read(); tail=open('/verif/scripts/design_tail.md').read()
 r2=open('/verif/scripts/design_round2.md').read() if os.path.exists('/verif/scripts/design_round2.md') else ''
-r2=r2.replace('@@SEEDTABLE2@@',t2).replace('@@N2@@',str(n2)).replace('@@D2@@',str(d2))
+fo=sum(1 for v in frozen.values() if v.get('own')); fa=sum(1 for v in frozen.values() if v.get('properties'))
+r2=r2.replace('@@SEEDTABLE2@@',t2).replace('@@N2@@',str(n2)).replace('@@D2@@',str(d2)).replace('@@FO@@',str(fo)).replace('@@FA@@',str(fa)).replace('@@FN@@',str(len(frozen)))
 out=head+parts['sec2']+parts['sec3']+tail.replace('@@SEEDTABLE@@',t1).replace('@@ROUND2@@',r2).replace('@@SEC6@@',parts['sec6']).replace('@@SEC8@@',parts['sec8']).replace('@@SEC4@@',parts['sec4'].replace('## 4. Per-property design','## 11. Appendix — per-property design as written before the code (kept for the reasoning; §4 is authoritative for what is checked)'))
 open('/verif/DESIGN.md','w').write(out); print(len(out),'bytes; round1',d1,'/',n1,'round2',d2,'/',n2)
